@@ -167,19 +167,35 @@ pub fn constrain_args(
     let mut env_with_args = env.is_expr(true);
 
     let mut arg_names: HashSet<&Node> = HashSet::new();
+    let (mut seen_default, mut seen_vararg) = (false, false);
     for arg in args {
         match &arg.node {
             Node::FunArg {
+                vararg,
                 mutable,
                 var,
                 ty,
                 default,
-                ..
             } => {
                 if !arg_names.insert(&var.node) {
                     let msg = format!("Duplicate argument: {}", var.node);
                     return Err(vec![TypeErr::new(var.pos, &msg)]);
                 }
+                // The argument list must be one Python can have as well.
+                let msg = if *vararg && default.is_some() {
+                    Some("A vararg cannot have a default")
+                } else if *vararg && seen_vararg {
+                    Some("There can only be one vararg")
+                } else if !*vararg && default.is_none() && seen_default && !seen_vararg {
+                    Some("An argument without default cannot follow one with a default")
+                } else {
+                    None
+                };
+                if let Some(msg) = msg {
+                    return Err(vec![TypeErr::new(arg.pos, msg)]);
+                }
+                seen_default = seen_default || default.is_some();
+                seen_vararg = seen_vararg || *vararg;
                 if var.node == Node::new_self() {
                     let class_name = &env.class.clone().ok_or_else(|| {
                         TypeErr::new(var.pos, &format!("{SELF} cannot be outside class"))
